@@ -62,6 +62,14 @@ int main() {
         for (int i = 1; i <= n; i++) for (int j = i; j <= n && j <= i + b; j++) C(i, j) = D();
         V r(n); for (int i = 1; i <= n; i++) r(i) = D();
         C.cholDec(); C.solve(r); outV(r);
+      } else if (c == "covldl") {
+        // the packed storage after CovMat::cholDec: row r holds D_r followed by L(r+1..r+k, r)
+        int n = I(), b = I(); CovMat<double, int, Exception::matvec> C(n, b);
+        for (int i = 1; i <= n; i++) for (int j = i; j <= n && j <= i + b; j++) C(i, j) = D();
+        C.cholDec();
+        std::cout << "ok " << n << ' ' << b;
+        for (const double* p = C.begin(); p != C.end(); ++p) std::cout << ' ' << dhex(*p);
+        std::cout << "\n";
       } else if (c == "covidx") {
         int n = I(), b = I(); CovMat<double, int, Exception::matvec> C(n, b);
         std::cout << "ok " << n << ' ' << b;
